@@ -675,6 +675,9 @@ class Sectionable(BaseObject):
         from odml.section import BaseSection
         obj = super(Sectionable, self).clone(children)
         obj._parent = None
+        if not keep_id:
+            obj.new_id()
+
         obj._sections = SmartList(BaseSection)
         if children:
             for sec in self._sections:
